@@ -37,7 +37,7 @@ fn exec_steps(u: &mut Unstructured, depth: u32) -> Result<Vec<ExecStep>> {
     let n = u.int_in_range(0..=3usize)?;
     let mut v = vec![];
     for _ in 0..n {
-        let hi = if depth > 0 { 11 } else { 10 };
+        let hi = if depth > 0 { 12 } else { 11 };
         v.push(match u.int_in_range(0..=hi as u8)? {
             0 => {
                 let k = u.int_in_range(1..=3usize)?;
@@ -53,6 +53,7 @@ fn exec_steps(u: &mut Unstructured, depth: u32) -> Result<Vec<ExecStep>> {
             8 => ExecStep::CreateNowWith(u.int_in_range(0..=7)?, u.int_in_range(1..=999)?),
             9 => ExecStep::OtherWorld,
             10 => ExecStep::LazyCreateWith(u.int_in_range(0..=7)?, u.int_in_range(1..=999)?),
+            11 => ExecStep::Chain(u.int_in_range(1..=140)?),
             _ => ExecStep::Nested(exec_steps(u, depth - 1)?),
         });
     }
@@ -66,6 +67,7 @@ fn op(u: &mut Unstructured) -> Result<Op> {
         24 => Op::Retrieve(u.arbitrary()?),
         22 => Op::Deserialize(u.int_in_range(0..=3)?),
         23 => Op::SetEmission(u.int_in_range(0..=7)?, u.arbitrary()?),
+        24 => Op::DeleteTwice(sel(u)?),
         0 => Op::CreateNow { comps: comps(u)?, built: u.int_in_range(0..=7u8)? != 0 },
         1 => Op::CreateIterNow(u.int_in_range(0..=5)?),
         2 => Op::CreateAtomic,
@@ -106,7 +108,7 @@ pub fn decode_history(data: &[u8]) -> Option<History> {
     for i in 0..n {
         let k = ALL_KINDS[(start + i * step) % ALL_KINDS.len()];
         if !storages.iter().any(|(x, _): &(Kind, u8)| *x == k) {
-            storages.push((k, u.int_in_range(0..=6u8).ok()? | if u.int_in_range(0..=3u8).ok()? == 0 { 0x80 } else { 0 }));
+            storages.push((k, u.int_in_range(0..=8u8).ok()? | if u.int_in_range(0..=3u8).ok()? == 0 { 0x80 } else { 0 }));
         }
     }
     let mut ops = vec![];
